@@ -19,8 +19,9 @@
                right sequence; objects reach the consumer only after their whole block was decoded,
                so in-block overwrites show up here)
             3  canonical form of a tree <> encode_block of its description
-            4  the model answers E_WIRE on a tree (not well-typed, see Pbf/Tree.v: outside the domain on
-               which the model speaks for the implementation; generator defect)
+            4  a description is outside valid_block, or the model answers E_WIRE on a tree (not
+               well-typed, see Pbf/Tree.v: outside the domain on which the model speaks for the
+               implementation): generator defects
             0  case does not parse *)
 From Coq Require Import ZArith List Bool.
 From Verif Require Import Base.Int64 Base.Wire Pbf.Tree Pbf.Model Pbf.Spec Pbf.Header Pbf.CheckLib.
@@ -66,6 +67,7 @@ Definition check_case (t : toks) : list Z :=
                  ((ust =? 0) && forallb snd un &&
                   objs_eqb (map fst un) (flat_map (fun b => match fst b with Some d => elements d | None => [] end) bs)) in
       nodup Z.eq_dec (flat_map (run_codes trees ust (map fst un)) rs ++ code_if j1u 1 ++ code_if j2u 2 ++ code_if j3 3
-                      ++ code_if (match scan_file cfg_all 1 trees with Err c => negb (c =? E_WIRE) | _ => true end) 4
+                      ++ code_if (forallb (fun b => match fst b with Some d => valid_block d | None => true end) bs
+                                  && match scan_file cfg_all 1 trees with Err c => negb (c =? E_WIRE) | _ => true end) 4
                       ++ code_if (negb (match rs with [] => true | _ => false end)) 0)
   end.
